@@ -34,6 +34,8 @@
 (*             client identifier, user name, password, will, filters)      *)
 (*   lengths   Remaining Length and Property Length hitting the Variable   *)
 (*             Byte Integer boundaries                                     *)
+(*   content   binary data with the bytes 0x00 / 0x7F / 0x80 / 0xFF and   *)
+(*             multi-byte UTF-8 in every string-valued place               *)
 (***************************************************************************)
 EXTENDS Wire, FiniteSets, TLC, Json, IOUtils, SequencesExt
 
@@ -346,8 +348,37 @@ FLengths ==
                   target \in RLE \cup {268435455} \cup (IF Thorough THEN {268435454} ELSE {})}
      ELSE {})
 
+(* contents other than runs of one ASCII letter: Binary Data may hold any   *)
+(* byte; UTF-8 strings with 2-, 3- and 4-byte sequences ("e-acute", euro    *)
+(* sign, U+1F600)                                                            *)
+Bin1 == Canon(Bytes(<<0, 255, 128, 127, 0, 0, 255, 1>>))
+Utf1 == Canon(Bytes(<<195, 169, 226, 130, 172, 240, 159, 152, 128, 47, 97>>))
+ContentVals(id) ==
+    LET ty == PropType(id)
+    IN  CASE ty = "bin"  -> {Bin1, Run(0, 1), Run(0, 3), Run(255, 2), Run(255, 65535), Run(128, 128), Run(0, 65535)}
+          [] ty = "utf8" -> {Utf1}
+          [] ty = "pair" -> {<<Utf1, Utf1>>, <<Utf1, << >>>>, <<K(1), Utf1>>}
+          [] OTHER -> {}
+PsContent(A, ctx) == UNION {{Adm(<<Pv(id, v)>>, ctx) : v \in ContentVals(id)} : id \in A}
+                     \cup UNION {{Tup(Replace(PropSeq(A), id, v)) : v \in ContentVals(id)} : id \in A}
+FContent ==
+    (IF HasP
+     THEN {Vx(WithProps(ps)) : ps \in PsContent(Allowed, T)}
+          \cup (IF IsConnect THEN {Vx(WithWillProps(ps)) : ps \in PsContent(WillA, "WILL")} ELSE {})
+     ELSE {})
+    \cup
+    CASE T = "CONNECT" ->
+            {Vx(MkConnect(1, 60, << >>, Utf1, <<MkWill(1, 1, << >>, Utf1, pl)>>, <<Utf1>>, <<pw>>)) :
+                pl \in {Bin1, Run(0, 2), Run(255, 65535)}, pw \in {Bin1, Run(0, 1), Run(255, 65535), Run(128, 3)}}
+      [] T = "PUBLISH" ->
+            {Vx(MkPublish(0, q, 0, Utf1, q, ps, pl)) : q \in 0..1, ps \in {<< >>, <<Pv(9, Bin1)>>},
+                pl \in {Bin1, Run(0, 1), Run(0, 65535), Run(255, 1), Run(255, 65535), Run(128, 16384), Utf1}}
+      [] T = "SUBSCRIBE"   -> {Vx(MkSubscribe(1, << >>, <<MkFilter(Utf1, 1, 0, 0, 0), MkFilter(S(35, 1), 0, 0, 0, 0)>>))}
+      [] T = "UNSUBSCRIBE" -> {Vx(MkUnsubscribe(1, << >>, <<Utf1, S(35, 1)>>))}
+      [] OTHER -> {}
+
 Families == << <<"fields", FFields>>, <<"presence", FPresence>>, <<"values", FValues>>, <<"pairs", FPairs>>,
-               <<"lists", FLists>>, <<"strings", FStrings>>, <<"lengths", FLengths>> >>
+               <<"lists", FLists>>, <<"strings", FStrings>>, <<"lengths", FLengths>>, <<"content", FContent>> >>
 
 -----------------------------------------------------------------------------
 AllVecs == UNION {Families[i][2] : i \in 1..Len(Families)}
